@@ -55,6 +55,17 @@ add("C16", "E-SIM", "model-based property testing: generated create/delete/set_q
 add("C17", "E-SIM", "property-based testing: generated participant sets (domain id x tag), announcement fault tape with optional cross-domain delivery, crash instants and ignore; discovery/isolation/lease-window oracle in virtual time",
     "Held on N generated configurations; only the 100 s lease dust-dds announces is exercised.", SIM_NOTE)
 
+add("C03", "E-SIM", "property-based testing: generated writes + fault tape + reader deletion/crash while wait_for_acknowledgments is pending; soundness at the completion instant and bounded completion in virtual time",
+    "Held on N generated schedules; bounded liveness only (5 s after heal, lease + 1.5 s after a silent crash).", SIM_NOTE)
+add("C04", "E-SIM", "property-based testing: generated pre/post-match writes, KEEP_LAST depth, late TRANSIENT_LOCAL/VOLATILE readers, catch-up fault tape; retained-history model",
+    "Held on N generated histories.", SIM_NOTE)
+add("C26", "E-SIM", "property-based testing: generated filter expressions/parameters/samples and arrival groupings (coalesced RTPS messages); presented set == predicate-filtered set",
+    "Held on N generated cases over the supported filter language (=, <= on int32/string members).", SIM_NOTE)
+add("C27", "E-SIM", "property-based testing: generated write bursts against a partitioned/attacked reliable reader; blocking/timeout window and nothing-unacknowledged-dropped oracle, late-joiner depth probe",
+    "Held on N generated schedules.", SIM_NOTE)
+add("C29", "E-SIM", "property-based testing: generated lifespans, past source timestamps, partitions forcing late repairs and late joiners; wire monitor bounds the send time of every sample by timestamp + lifespan + one worker period",
+    "Held on N generated schedules; send-side oracle plus never-presented for samples expired at write.", SIM_NOTE)
+
 # checks built by helper engines: metadata comes from tools/fragments/<ID>.json
 FRAGMENT_ENGINE = {"C08": "E-CODEC", "C14": "E-CODEC", "C38": "E-CODEC", "C34": "E-CHAN", "C42": "E-RT", "C40": "E-GEN", "C41": "E-GEN",
                    "C09": "E-CODEC", "C10": "E-CODEC", "C11": "E-CODEC", "C12": "E-CODEC", "C39": "E-CODEC", "C07": "E-CODEC", "C13": "E-CODEC",
